@@ -907,3 +907,299 @@ Proof.
 Qed.
 
 End Invariant.
+
+(* ================================================================ closed statements *)
+Definition prog_table (ops : list op) : ns -> Z := fun k => first_prog k (all_infos ops).
+
+Lemma respects_of_infos : forall F ops, (forall info, In info (all_infos ops) -> info_respects F info) ->
+  Forall (op_respects F) ops.
+Proof.
+  intros F ops. induction ops as [|o r IH]; intros H; [constructor|].
+  constructor.
+  - destruct o; cbn; try exact I. apply Forall_forall. intros info Hin. apply H. cbn. apply in_or_app. left. exact Hin.
+  - apply IH. intros info Hin. apply H. destruct o; cbn; try exact Hin. apply in_or_app. right. exact Hin.
+Qed.
+
+Lemma prog_consistent_respects : forall ops, prog_consistentb ops = true -> Forall (op_respects (prog_table ops)) ops.
+Proof.
+  intros ops H. apply respects_of_infos. intros info Hin. unfold prog_consistentb in H.
+  rewrite forallb_forall in H. specialize (H info Hin). apply Z.eqb_eq in H. exact H.
+Qed.
+
+(* conversely a table respected by the whole history makes it consistent *)
+Lemma first_prog_respects : forall F l k, (forall info, In info l -> info_respects F info) ->
+  (exists g, In (k, g) l) -> first_prog k l = F k.
+Proof.
+  intros F l k. induction l as [|[[a n] g] r IH]; intros H [g0 Hin]; [destruct Hin|]. cbn.
+  destruct (ns_eqb k (a, n)) eqn:E.
+  - apply ns_eqb_eq in E. subst k. apply (H (a, n, g)). left. reflexivity.
+  - apply IH.
+    + intros info Hi. apply H. right. exact Hi.
+    + destruct Hin as [Hin | Hin]; [inversion Hin; subst; rewrite ns_eqb_refl in E; discriminate | exists g0; exact Hin].
+Qed.
+
+Lemma respects_prog_consistent : forall F ops, (forall info, In info (all_infos ops) -> info_respects F info) ->
+  prog_consistentb ops = true.
+Proof.
+  intros F ops H. unfold prog_consistentb. apply forallb_forall. intros [k g] Hin. cbn [fst snd].
+  apply Z.eqb_eq. rewrite (first_prog_respects F (all_infos ops) k H); [|exists g; exact Hin].
+  apply (H (k, g) Hin).
+Qed.
+
+Fixpoint no_same (os : list obs) : Prop :=
+  match os with
+  | [] => True
+  | OSame _ :: _ => False
+  | _ :: r => no_same r
+  end.
+
+Lemma run_no_same : forall cfg ops st, no_same (run cfg st ops).
+Proof.
+  intros cfg ops. induction ops as [|o r IH]; intros st; cbn; [exact I|].
+  destruct (step cfg st o) as [[[st' rep] pubs]|k]; cbn; [apply IH | exact I].
+Qed.
+
+Lemma expand_no_same : forall os prev, no_same os -> expand prev os = os.
+Proof.
+  intros os. induction os as [|o r IH]; intros prev H; cbn; [reflexivity|].
+  destruct o; cbn in H; [rewrite IH by exact H; reflexivity | destruct H | rewrite IH by exact H; reflexivity].
+Qed.
+
+(* the model satisfies the specification, for every configuration and every history (of any length) in which each
+   namespec keeps one program name *)
+Theorem model_satisfies_spec : forall cfg ops, prog_consistentb ops = true ->
+  case_spec_violation (cfg, ops, run cfg init_state ops) = false.
+Proof.
+  intros cfg ops H. unfold case_spec_violation. rewrite expand_no_same by apply run_no_same.
+  apply run_spec with (prog_table ops); [apply inv_init | apply prog_consistent_respects; exact H].
+Qed.
+
+Theorem no_internal_error : forall cfg ops k, prog_consistentb ops = true ->
+  In (OCrash k) (run cfg init_state ops) -> k = KeyError /\ exists a n, In (AppRemove a n) ops.
+Proof.
+  intros cfg ops k H Hin.
+  apply run_crash with cfg (prog_table ops) init_state; [apply inv_init | apply prog_consistent_respects; exact H | exact Hin].
+Qed.
+
+(* the history as Supvisors produces it (no direct call of remove_process): nothing is raised at all *)
+Definition context_paths_only (ops : list op) : Prop := forall a n, ~ In (AppRemove a n) ops.
+
+Theorem no_internal_error_context : forall cfg ops k, prog_consistentb ops = true -> context_paths_only ops ->
+  ~ In (OCrash k) (run cfg init_state ops).
+Proof.
+  intros cfg ops k H Hc Hin. destruct (no_internal_error cfg ops k H Hin) as [_ [a [n Han]]]. apply (Hc a n Han).
+Qed.
+
+(* every reachable state satisfies the invariant; what it means for the users of the sequences *)
+Theorem reachable_sequences_exact : forall cfg F st a ap, reachable cfg F st -> In (a, ap) (s_apps st) ->
+  NoDup (akeys (a_procs ap))
+  /\ Permutation (concat (avals (a_stop ap))) (map ent (a_procs ap))
+  /\ Permutation (concat (avals (a_start ap))) (if a_managed ap then map ent (a_procs ap) else [])
+  /\ (forall n p, In (n, p) (a_procs ap) -> amem (p_prog p) (a_groups ap) = true)
+  /\ (forall e, In e (concat (avals (a_start ap)) ++ concat (avals (a_stop ap))) ->
+        is_current ap e = true /\ amem (ref_prog ap e) (a_groups ap) = true).
+Proof.
+  intros cfg F st a ap Hr Hin. pose proof (reachable_inv cfg F st Hr) as [_ [Happs _]].
+  pose proof (Happs a ap Hin) as Hai. pose proof Hai as [H0 [Hs Ht]].
+  split; [apply (I_nodup _ _ _ _ H0)|]. split; [|split; [|split]].
+  - rewrite Ht. pose proof (build_seq_perm p_tseq (a_procs ap) []) as HP. cbn in HP. exact HP.
+  - rewrite Hs. destruct (a_managed ap); [|apply Permutation_refl].
+    pose proof (build_seq_perm p_sseq (a_procs ap) []) as HP. cbn in HP. exact HP.
+  - intros n p Hp. destruct (I_grp _ _ _ _ H0 n p Hp) as [g [G _]]. apply amem_aget with g. exact G.
+  - intros e He. apply in_app_or in He.
+    destruct (seq_entries cfg F a ap e Hai He) as [n [p [Hp Ee]]]. subst e.
+    destruct (ref_of_proc cfg F a ap n p H0 Hp) as [Hc Hrp]. split; [exact Hc|]. rewrite Hrp.
+    destruct (I_grp _ _ _ _ H0 n p Hp) as [g [G _]]. apply amem_aget with g. exact G.
+Qed.
+
+(* in a reachable state the start requests and resolve_rules answer (a result or a documented fault) and change
+   nothing; PROCESS_REMOVED / PROCESS_ADDED / ALL_INFO never raise *)
+Theorem reachable_reads_total : forall cfg F st o, reachable cfg F st -> is_read o = true ->
+  exists r, step cfg st o = Ok (st, r, []).
+Proof.
+  intros cfg F st o Hr Ho. pose proof (reachable_inv cfg F st Hr) as Hinv.
+  assert (Hresp : op_respects F o) by (destruct o; try discriminate; exact I).
+  destruct (step_inv cfg F st o Hinv Hresp) as [[st' [r [pubs [E [_ Hsame]]]]] | [a [n [ap [Eo _]]]]].
+  - destruct (Hsame Ho) as [E1 E2]. subst. exists r. exact E.
+  - subst o. discriminate.
+Qed.
+
+Theorem reachable_events_total : forall cfg F st o, reachable cfg F st -> op_respects F o ->
+  (forall a n, o <> AppRemove a n) -> exists st' r pubs, step cfg st o = Ok (st', r, pubs) /\ reachable cfg F st'.
+Proof.
+  intros cfg F st o Hr Ho Hne. pose proof (reachable_inv cfg F st Hr) as Hinv.
+  destruct (step_inv cfg F st o Hinv Ho) as [[st' [r [pubs [E _]]]] | [a [n [ap [Eo _]]]]].
+  - exists st', r, pubs. split; [exact E | apply R_step with st o r pubs; assumption].
+  - exfalso. apply (Hne a n Eo).
+Qed.
+
+(* the only exception: the direct call remove_process(n) with n not in application.processes *)
+Theorem reachable_direct_remove : forall cfg F st a n, reachable cfg F st ->
+  (exists st', step cfg st (AppRemove a n) = Ok (st', (match aget a (s_apps st) with Some _ => RNone | None => RNoApp end), []))
+  \/ (exists ap, aget a (s_apps st) = Some ap /\ aget n (a_procs ap) = None
+                 /\ step cfg st (AppRemove a n) = Crash KeyError).
+Proof.
+  intros cfg F st a n Hr. pose proof (reachable_inv cfg F st Hr) as Hinv.
+  destruct (step_inv cfg F st (AppRemove a n) Hinv I) as [[st' [r [pubs [E _]]]] | [a' [n' [ap [Eo [Ga [Gn E]]]]]]].
+  - left. cbn [step] in E |- *. destruct (aget a (s_apps st)) as [ap|].
+    + destruct (app_remove n ap); cbn in E |- *; [inversion E; eexists; reflexivity | discriminate].
+    + inversion E. eexists. reflexivity.
+  - inversion Eo. subst. right. exists ap. split; [exact Ga|]. split; [exact Gn | exact E].
+Qed.
+
+(* ---------------------------------------------------------------- the external publisher changes nothing else *)
+Definition set_pub (b : bool) (cfg : config) : config :=
+  mkconfig b (c_managed cfg) (c_rules cfg) (c_active cfg) (c_insts cfg).
+
+Definition strip (r : result loop_acc) : result (list ns * app * bool) :=
+  match r with Ok (il, ap, imp, _) => Ok (il, ap, imp) | Crash k => Crash k end.
+
+Lemma remove_target_pub : forall pub pub' i a t il ap imp pubs pubs',
+  strip (remove_target pub i a t (il, ap, imp, pubs)) = strip (remove_target pub' i a t (il, ap, imp, pubs')).
+Proof.
+  intros pub pub' i a [nm p] il ap imp pubs pubs'. unfold remove_target.
+  destruct (ns_mem (a, nm) il); cbn [negb]; [|reflexivity].
+  destruct (zmem i (p_infos p)); cbn [negb]; [|reflexivity].
+  destruct (zdiscard i (p_infos p)); [|reflexivity].
+  destruct (app_remove nm ap); reflexivity.
+Qed.
+
+Lemma remove_loop_pub : forall pub pub' i a ts il ap imp pubs pubs',
+  strip (remove_loop pub i a ts (il, ap, imp, pubs)) = strip (remove_loop pub' i a ts (il, ap, imp, pubs')).
+Proof.
+  intros pub pub' i a ts. induction ts as [|t r IH]; intros il ap imp pubs pubs'; cbn [remove_loop]; [reflexivity|].
+  pose proof (remove_target_pub pub pub' i a t il ap imp pubs pubs') as H.
+  destruct (remove_target pub i a t (il, ap, imp, pubs)) as [[[[il1 ap1] imp1] pubs1]|k1];
+    destruct (remove_target pub' i a t (il, ap, imp, pubs')) as [[[[il2 ap2] imp2] pubs2]|k2]; cbn in H; try discriminate.
+  - inversion H. subst. cbn [bind]. apply IH.
+  - inversion H. reflexivity.
+Qed.
+
+Definition drop_pubs (r : result (state * reply * list pubev)) : result (state * reply) :=
+  match r with Ok (st, rep, _) => Ok (st, rep) | Crash k => Crash k end.
+
+Lemma load_all_pub : forall b cfg i infos st, load_all (set_pub b cfg) i infos st = load_all cfg i infos st.
+Proof.
+  intros b cfg i infos. induction infos as [|info r IH]; intros st; cbn [load_all]; [reflexivity|].
+  rewrite IH. reflexivity.
+Qed.
+
+Lemma step_pub : forall b cfg st o, drop_pubs (step (set_pub b cfg) st o) = drop_pubs (step cfg st o).
+Proof.
+  intros b cfg st o. destruct o as [i infos | i a n | a n | a | a |]; try reflexivity.
+  { cbn [step]. unfold ctx_load. rewrite load_all_pub. reflexivity. }
+  cbn [step]. unfold ctx_removed. cbn [set_pub c_active c_pub].
+  destruct (zmem i (c_active cfg)); cbn [negb]; [|reflexivity].
+  destruct (aget a (s_apps st)) as [ap|]; [|reflexivity].
+  destruct (targets i n ap) as [ts|]; [|reflexivity].
+  pose proof (remove_loop_pub b (c_pub cfg) i a ts (inst_of i st) ap false [] []) as H.
+  destruct (remove_loop b i a ts (inst_of i st, ap, false, [])) as [[[[il1 ap1] imp1] pubs1]|k1];
+    destruct (remove_loop (c_pub cfg) i a ts (inst_of i st, ap, false, [])) as [[[[il2 ap2] imp2] pubs2]|k2];
+    cbn in H; try discriminate.
+  - inversion H. subst. reflexivity.
+  - inversion H. reflexivity.
+Qed.
+
+Definition obs_nopub (o : obs) : obs :=
+  match o with OOk r _ st => OOk r [] st | other => other end.
+
+Theorem publisher_irrelevant : forall b cfg ops st,
+  map obs_nopub (run (set_pub b cfg) st ops) = map obs_nopub (run cfg st ops).
+Proof.
+  intros b cfg ops. induction ops as [|o r IH]; intros st; cbn [run]; [reflexivity|].
+  pose proof (step_pub b cfg st o) as H.
+  destruct (step (set_pub b cfg) st o) as [[[st1 r1] p1]|k1]; destruct (step cfg st o) as [[[st2 r2] p2]|k2];
+    cbn in H; try discriminate.
+  - inversion H. subst. cbn [map obs_nopub]. rewrite IH. reflexivity.
+  - inversion H. reflexivity.
+Qed.
+
+(* ---------------------------------------------------------------- the hypothesis is needed: candidate finding
+   One namespec announced with two program names (the Supervisor configurations of two instances disagree, or a
+   program section was renamed on one of them): ProcessStatus.add_info overwrites program_name, process_groups keeps
+   the first name: start_application raises KeyError. *)
+Definition drift_cfg : config := mkconfig false [0] [((0, 0), (1, 1))] [1; 2] [1; 2].
+Definition drift_ops : list op := [Load 1 [(0, 0, 0)]; Load 2 [(0, 0, 1)]; StartApp 0].
+
+Theorem program_name_drift_refuted :
+  context_paths_only drift_ops
+  /\ case_spec_violation (drift_cfg, drift_ops, run drift_cfg init_state drift_ops) = true
+  /\ In (OCrash KeyError) (run drift_cfg init_state drift_ops).
+Proof.
+  split; [|split].
+  - intros a n [H | [H | [H | []]]]; discriminate.
+  - vm_compute. reflexivity.
+  - vm_compute. right. right. left. reflexivity.
+Qed.
+
+(* and PROCESS_REMOVED raises too (KeyError, or ValueError when another process holds the second program name) *)
+Theorem program_name_drift_removal_refuted :
+  In (OCrash KeyError) (run drift_cfg init_state [Load 1 [(0, 0, 0)]; Load 2 [(0, 0, 1)]; Removed 1 0 (Some 0);
+                                                  Removed 2 0 (Some 0)])
+  /\ In (OCrash ValueError) (run drift_cfg init_state [Load 1 [(0, 0, 0); (0, 1, 1)]; Load 2 [(0, 0, 1)];
+                                                     Removed 1 0 (Some 0); Removed 2 0 (Some 0)]).
+Proof.
+  split; vm_compute.
+  - right. right. right. left. reflexivity.
+  - right. right. right. left. reflexivity.
+Qed.
+
+(* ---------------------------------------------------------------- the statements are not vacuous *)
+Definition ex_cfg : config :=
+  mkconfig false [0] [((0, 0), (1, 1)); ((0, 1), (2, 2)); ((0, 2), (0, 1))] [1; 2] [1; 2].
+(* instance 2 is the only one knowing program 1 (process 1); it removes its group; the application survives; then
+   removal of the last process of a program, re-addition, double removal, removal of everything *)
+Definition ex_ops : list op :=
+  [Load 1 [(0, 0, 0); (0, 2, 2)]; Load 2 [(0, 0, 0); (0, 1, 1)]; Removed 2 0 None; StartApp 0; RestartSeq; Resolve 0;
+   Removed 1 0 (Some 2); Load 2 [(0, 1, 1)]; Removed 1 0 (Some 2); StartApp 0; Removed 2 0 None; Removed 1 0 None;
+   StartApp 0].
+
+Example ex_hypotheses_satisfiable :
+  prog_consistentb ex_ops = true /\ context_paths_only ex_ops
+  /\ map (fun o => match o with OOk r _ _ => Some r | _ => None end) (run ex_cfg init_state ex_ops)
+     = [Some RNone; Some RNone; Some RNone; Some RDone; Some RDone; Some RNone; Some RNone; Some RNone; Some RNone;
+        Some RDone; Some RNone; Some RNone; Some RBadName]
+  /\ case_spec_violation (ex_cfg, ex_ops, run ex_cfg init_state ex_ops) = false.
+Proof.
+  split; [vm_compute; reflexivity|]. split; [|split; vm_compute; reflexivity].
+  intros a n H. cbn in H. repeat (destruct H as [H | H]; [discriminate|]). exact H.
+Qed.
+
+Example ex_reachable : exists st, reachable ex_cfg (prog_table ex_ops) st /\ s_apps st <> [] /\ s_next st = 4.
+Proof.
+  assert (H : forall ops st, reachable ex_cfg (prog_table ex_ops) st -> Forall (op_respects (prog_table ex_ops)) ops ->
+            forall st', fold_left (fun acc o => match acc with
+                                                 | Some s => match step ex_cfg s o with Ok (s', _, _) => Some s' | Crash _ => None end
+                                                 | None => None end) ops (Some st) = Some st' ->
+            reachable ex_cfg (prog_table ex_ops) st').
+  { intros ops. induction ops as [|o r IH]; intros st Hr HF st' E; cbn in E; [inversion E; subst; exact Hr|].
+    inversion HF as [|x xs Ho Hxs]. subst.
+    destruct (step ex_cfg st o) as [[[s1 r1] p1]|k] eqn:Es.
+    - apply (IH s1); [apply R_step with st o r1 p1; assumption | exact Hxs | exact E].
+    - exfalso. clear -E. induction r as [|o' r' IHr]; cbn in E; [discriminate | apply IHr; exact E]. }
+  eexists. split.
+  - apply (H [Load 1 [(0, 0, 0); (0, 2, 2)]; Load 2 [(0, 0, 0); (0, 1, 1)]; Removed 2 0 None; StartApp 0; RestartSeq;
+              Resolve 0; Removed 1 0 (Some 2); Load 2 [(0, 1, 1)]] init_state (R_init _ _)).
+    + repeat (constructor; try exact I); vm_compute; reflexivity.
+    + vm_compute. reflexivity.
+  - split; [discriminate | reflexivity].
+Qed.
+
+(* the direct remove_process on an unknown name is the excused exception (S1) *)
+Example ex_direct_remove_unknown :
+  run ex_cfg init_state [Load 1 [(0, 0, 0)]; AppRemove 0 5] <> [] /\
+  last (run ex_cfg init_state [Load 1 [(0, 0, 0)]; AppRemove 0 5]) (OCrash OtherError) = OCrash KeyError /\
+  case_spec_violation (ex_cfg, [Load 1 [(0, 0, 0)]; AppRemove 0 5], run ex_cfg init_state [Load 1 [(0, 0, 0)]; AppRemove 0 5])
+  = false.
+Proof. split; [vm_compute; discriminate|]. split; vm_compute; reflexivity. Qed.
+
+(* the specification checker is not trivially true: a stale reference, a missing process, an unknown program
+   name are rejected (observations that the code at HEAD never produces) *)
+Example ex_spec_rejects :
+  let ok := (0, true, [(0, 0, [1])], [(0, [(0, true)])], [(1, [(0, true, 0)])], [(1, [(0, true, 0)])]) : oapp in
+  let stale := (0, true, [(0, 0, [1])], [(0, [(0, true)])], [(1, [(0, true, 0); (1, false, 1)])], [(1, [(0, true, 0)])]) : oapp in
+  let missing := (0, true, [(0, 0, [1])], [(0, [(0, true)])], [], [(1, [(0, true, 0)])]) : oapp in
+  let nogroup := (0, true, [(0, 0, [1])], [], [(1, [(0, true, 0)])], [(1, [(0, true, 0)])]) : oapp in
+  oapp_ok ex_cfg ok = true /\ oapp_ok ex_cfg stale = false /\ oapp_ok ex_cfg missing = false
+  /\ oapp_ok ex_cfg nogroup = false.
+Proof. vm_compute. repeat split; reflexivity. Qed.
